@@ -120,6 +120,10 @@ pub fn populated(cfg: &Cfg, cs: u32) -> Cfg {
     let mut c = cfg.clone();
     c.base = Arc::new(Base::Bytes(img));
     c.name = format!("{}-pop", cfg.name);
+    let mut m = ex.model.clone();
+    m.close_all();
+    m.changed_since_mount = false;
+    c.model0 = Some(Arc::new(m));
     c
 }
 
@@ -127,7 +131,7 @@ pub fn variants(base: &Cfg) -> Vec<Cfg> {
     let mut out = Vec::new();
     let Base::Bytes(img0) = &*base.base else { unreachable!() };
     let g = vol::geo_of(img0);
-    for status in [0u8, 1] {
+    for status in [0u8, 1, 2, 3] {
         // fs-info variants: (name, free count, next-free hint)
         let last = g.clusters as u32 + 1;
         let frees: Vec<(&str, Option<u32>, Option<u32>)> = if g.width == 32 {
@@ -144,7 +148,7 @@ pub fn variants(base: &Cfg) -> Vec<Cfg> {
             vec![("", None, None)]
         };
         for (n, f, h) in frees {
-            if status == 1 && n.starts_with("hint") {
+            if status >= 1 && n.starts_with("hint") {
                 continue;
             }
             let mut img = img0.clone();
@@ -155,6 +159,19 @@ pub fn variants(base: &Cfg) -> Vec<Cfg> {
             c.name = format!("{}-st{}{}{}", base.name, status, if n.is_empty() { "" } else { "-" }, n);
             out.push(c);
         }
+    }
+    // really dirty volume: recorded size of long.txt exceeds its cluster chain (chain cut after the first cluster)
+    {
+        let d = vol::decode_image(img0).expect("decode populated");
+        let e = d.find_entry("/long.txt").expect("long.txt");
+        let mut img = img0.clone();
+        vol::set_status(&mut img, 1);
+        let eoc = match g.width { 12 => 0xFFF, 16 => 0xFFFF, _ => 0x0FFF_FFFF };
+        vol::set_fat(&mut img, &g, e.first_cluster, eoc);
+        let mut c = base.clone();
+        c.base = Arc::new(Base::Bytes(img));
+        c.name = format!("{}-st1-cutchain", base.name);
+        out.push(c);
     }
     // status recorded only in FAT entry 1 (FAT16/FAT32), boot-sector byte clean
     if g.width != 12 {
@@ -175,7 +192,8 @@ pub fn specs(tier: &str) -> Vec<ExpSpec> {
     let mut v = Vec::new();
     for ft in [FatType::Fat12, FatType::Fat16, FatType::Fat32] {
         let cfg = populated(&vol::tiny_with(ft, 12, 16), 512);
-        for c in variants(&cfg) {
+        for mut c in variants(&cfg) {
+            c.ticking = true;
             v.push(ExpSpec::new(c, alphabet(512), if th { 12 } else { 6 }));
         }
     }
@@ -183,6 +201,16 @@ pub fn specs(tier: &str) -> Vec<ExpSpec> {
     {
         let spec = vol::VolSpec { name: "t32-512x2".into(), fat: FatType::Fat32, bps: 512, spc: 2, fats: 2, root_entries: 0, clusters: Some(65525), free: Some(12), tail: 0 };
         let (img, cands) = vol::build(&spec).expect("fat32 512x2");
+        let cfg = populated(&vol::cfg_from(&spec.name, img, cands), 1024);
+        for c in variants(&cfg) {
+            if c.name.contains("st0-exact") || c.name.contains("nofree") {
+                v.push(ExpSpec::new(c, alphabet(1024), if th { 7 } else { 4 }));
+            }
+        }
+    }
+    {
+        let spec = vol::VolSpec { name: "t32-1024x1".into(), fat: FatType::Fat32, bps: 1024, spc: 1, fats: 2, root_entries: 0, clusters: Some(65525), free: Some(12), tail: 0 };
+        let (img, cands) = vol::build(&spec).expect("fat32 1024x1");
         let cfg = populated(&vol::cfg_from(&spec.name, img, cands), 1024);
         for c in variants(&cfg) {
             if c.name.contains("st0-exact") || c.name.contains("nofree") {
